@@ -101,7 +101,7 @@ TIEnd == /\ Ev.e = "iend"
          /\ LET listed == {Ev.xs[k][1] : k \in 1..Len(Ev.xs)} IN
             /\ Cardinality(listed) = Len(Ev.xs)
             /\ \A k \in 1..Len(Ev.xs) : Ev.xs[k][1] \in DOMAIN enc /\ enc[Ev.xs[k][1]] = Ev.xs[k][2]
-            /\ \A v \in snap[Ev.id] : v \in listed \/ enc[v][1] \in Ev.xm
+            /\ \A v \in snap[Ev.id] : v \in listed \/ enc[v][1] \in {Ev.xm[k] : k \in 1..Len(Ev.xm)}
          /\ UNCHANGED <<enc, dec, op, retOf, snap>>
 TReset == /\ Ev.e = "reset"
           /\ enc' = <<>> /\ dec' = <<>> /\ op' = [t \in Threads |-> Idle]
